@@ -804,7 +804,41 @@ def option_cases(ctx):
                 yield {'option': name, 'value': spec, 'start': start}
 
 
+# ---- termination: a short malformed format must be answered (a result or a documented exception), not looped on -----------
+TERMINATION_FORMATS = ['x*(hex), 2*(uint:8)', 'a*(u8),2*(u8)', '2*(x*(u8)), 3*(u8)', ' *(u8), 2*(u8)', '1.5*(u8), 2*(u8)', '-*(u8),2*(bool)',
+                       'u8, y*(bool), 4*(bool)', '2*(u8)', '((u8)), 2*(bool)', ')*(u8), 2*(u8)', '2*(u8), x*(hex)', '0*(u8), z*(u8), 3*(u8)']
+TERMINATION_ENTRIES = {'Bits': 'bitstring.Bits(F)', 'pack': 'bitstring.pack(F, 1, 2, 3)', 'unpack': "bitstring.Bits('0xffff').unpack(F)",
+                       'readlist': "bitstring.ConstBitStream('0xffff').readlist(F)"}
+
+
+def judge_termination(ctx, case):
+    import subprocess
+    import sys
+    code = ('import bitstring\nF = %r\ntry:\n    %s\n    print("ok")\nexcept Exception as e:\n    print(type(e).__name__)\n'
+            % (case['terminates'], TERMINATION_ENTRIES[case['via']]))
+    root = os.path.dirname(os.path.dirname(os.path.abspath(bitstring.__file__)))
+    try:
+        r = subprocess.run([sys.executable, '-c', code], capture_output=True, text=True, timeout=40, env=dict(os.environ, PYTHONPATH=root))
+        out = r.stdout.strip().splitlines()[-1] if r.stdout.strip() else 'no-output:' + r.stderr.strip()[-80:]
+    except subprocess.TimeoutExpired:
+        out = None
+    ctx.op('termination:' + case['via'], out or 'timeout')
+    if out is None:
+        ctx.ops['termination:' + case['via'] + ':timeout'] += 1
+        # a 20-character format is parsed in microseconds: 40 s is not a performance verdict but "it does not come back"
+        ctx.mismatch(f'C20|{case["via"]}|short-malformed-multiplier-format|no-answer-within-40s', case, case['terminates'])
+    elif out in ('ok', 'ValueError', 'CreationError', 'ReadError', 'IndexError', 'TypeError', 'InterpretError', 'Error'):
+        ctx.ok(('termination', case['via'], out), True)
+    else:
+        ctx.mismatch(f'C20|undocumented-exc:{out}@{case["via"]}-malformed-format', case, case['terminates'])
+
+
 def run(ctx):
+    if ctx.shard == 1 % ctx.nshards:
+        for f in TERMINATION_FORMATS:
+            for via in TERMINATION_ENTRIES:
+                if ctx.ops.get('termination:' + via + ':timeout', 0) < 1:         # one unanswered call per entry point is verdict enough
+                    judge_termination(ctx, {'terminates': f, 'via': via})
     if ctx.shard == 0:
         for c in option_cases(ctx):
             ctx.run_case(judge_option, c)
@@ -843,7 +877,9 @@ REQUIRED_OPS = required_ops()
 
 
 def replay(ctx, case):
-    if 'option' in case:
+    if 'terminates' in case:
+        judge_termination(ctx, case)
+    elif 'option' in case:
         ctx.run_case(judge_option, case)
     elif 'entry' in case:
         ctx.run_case(judge_entry, case)
